@@ -306,6 +306,10 @@ class World(object):
         self.scheduler = None
         self.resolved = []
         self.dns_records = 1            # address records per family
+        self.select_calls = 0
+        self.select_fail = None         # (n, exception): fails from call n on
+        self.select_fail_hits = 0
+        self.select_spin = False        # the client kept calling regardless
         self.dns_names = {}             # numeric address -> resolved name
 
     def next_seq(self):
@@ -414,6 +418,16 @@ class World(object):
             @staticmethod
             def select(rlist, wlist, xlist, timeout=None):
                 ready = []
+                world.select_calls += 1
+                sf = world.select_fail
+                if sf is not None and world.select_calls >= sf[0]:
+                    # injected fault: from its n-th call on select() fails
+                    # (descriptor number beyond FD_SETSIZE, EBADF, ENOMEM...)
+                    world.select_fail_hits += 1
+                    if world.select_fail_hits > 300:
+                        world.select_spin = True
+                        raise KillThread()
+                    raise sf[1]
                 files = [underlying_file(s) for s in rlist]
                 for s, f in zip(rlist, files):
                     if f.closed:
